@@ -43,3 +43,61 @@ def c03_touching_empty_gap(f, replay):
     if not (st.get("gapFrom") == st.get("gapTo") == st.get("to")):
         return False
     return replay.get("pos") == st.get("to")
+
+
+def c04_node_mark_inverse(f, replay):
+    """C04 open finding: a single node-mark step cannot always be undone by a single node-mark step
+    (AddNodeMarkStep.invert / RemoveNodeMarkStep.invert, same in upstream). Class — decided from the
+    replay's `node_mark` data alone:
+      add:    the new mark displaces two or more present marks, or displaces a mark that does not
+              exclude the new mark in return (asymmetric exclusion: re-adding it is blocked), or
+      either: the node carries two or more marks of the step's mark type (a type that does not exclude
+              itself): removing and re-adding changes the order within the type."""
+    nm = replay.get("node_mark")
+    if not nm:
+        return False
+    present, mark, excl = nm["present"], nm["mark"], nm["excludes"]
+    same_type = [p for p in present if p[0] == mark[0]]
+    if len(same_type) >= 2 or (len(same_type) == 1 and same_type[0] != mark and mark[0] not in excl.get(mark[0], [])):
+        return True
+    if nm["add"]:
+        displaced = [p for p in present if p[0] in excl.get(mark[0], []) and p != mark]
+        if len(displaced) >= 2:
+            return True
+        if any(mark[0] not in excl.get(p[0], []) for p in displaced):
+            return True
+    return False
+
+
+def _ancestor_types(doc, pos):
+    r = doc.resolve(pos)
+    return [r.node(d).type.name for d in range(r.depth + 1)]
+
+
+def c17_parent_retyped(f, replay):
+    """C17 open finding: one of the two steps re-types an ancestor of the other step's range (it joins a node
+    of another type onto it through an open slice side, e.g. turns the paragraph holding the other range into a
+    title / code block). The other step then applies to content in a differently typed parent, so orders can
+    diverge or one order can fail. Class: for some step X of the pair, the chain of ancestor node types at an end
+    of X's range differs between the base document and the document after the other step (at the mapped position)."""
+    from prosemirror.model import Node
+    from prosemirror.transform import Step
+    from . import schemas
+    from .props.c17 import span
+    info = schemas.by_name(replay["schema"])
+    doc = Node.from_json(info.schema, replay["doc"])
+    a = Step.from_json(info.schema, replay["a"])
+    b = Step.from_json(info.schema, replay["b"])
+    for x, y in ((a, b), (b, a)):
+        res = y.apply(doc)
+        if res.doc is None:
+            continue
+        m = y.get_map()
+        sp = span(x)
+        for pos, assoc in ((sp[0], 1), (sp[1], -1)):
+            try:
+                if _ancestor_types(doc, pos) != _ancestor_types(res.doc, m.map(pos, assoc)):
+                    return True
+            except Exception:  # noqa: BLE001
+                return True
+    return False
